@@ -655,14 +655,16 @@ def stepWith (lg : Legacy) (ctx : Ctx) (g : Graph) : Op → R
 def step (ctx : Ctx) (g : Graph) (op : Op) : R := stepWith .fixed ctx g op
 
 /-- a whole history; stops at the first panic (the state after a panic is unspecified) -/
-def run (ctx : Ctx) (g : Graph) : List Op → Graph × List Outcome
+def runWith (lg : Legacy) (ctx : Ctx) (g : Graph) : List Op → Graph × List Outcome
   | [] => (g, [])
   | op :: ops =>
-    match step ctx g op with
+    match stepWith lg ctx g op with
     | (g', .panic s) => (g', [.panic s])
     | (g', out) =>
-      let (g'', outs) := run ctx g' ops
+      let (g'', outs) := runWith lg ctx g' ops
       (g'', out :: outs)
+
+def run (ctx : Ctx) (g : Graph) (ops : List Op) : Graph × List Outcome := runWith .fixed ctx g ops
 
 /-! ### queries -/
 
